@@ -394,13 +394,17 @@ class SSETransport(Transport):
     async def _route_incoming_message(self, message_data: Dict[str, Any]) -> None:
         """Route incoming message to the incoming stream."""
         try:
-            from chuk_mcp.protocol.messages.json_rpc_message import JSONRPCMessage
+            from chuk_mcp.protocol.messages.json_rpc_message import parse_message
 
-            message = JSONRPCMessage.model_validate(message_data)  # type: ignore[attr-defined]
+            # parse_message, as the stdio transport does: a response whose result
+            # is not an object is still a response
+            message = parse_message(message_data)
 
             if self._incoming_send:
                 await self._incoming_send.send(message)
-                logger.debug(f"Routed incoming message: {message.method or 'response'}")
+                logger.debug(
+                    f"Routed incoming message: {getattr(message, 'method', None) or 'response'}"
+                )
 
         except Exception as e:
             logger.error(f"Error routing incoming message: {e}")
